@@ -1,7 +1,7 @@
 """C04 - one-shot runs terminate: no lost wake-up, no deadlock (shared with C06, C10, C17, C20)."""
 from common import *
 from engine import rule, AnchorLost
-from rules_c01 import classify_ok_site, set_mutations, _must_pass
+from rules_c01 import classify_ok_site, classify_msg_site, set_mutations, _must_pass
 
 
 def requester_registrations(actor, R):
@@ -28,19 +28,19 @@ def ack_late(ctx):
             props = ["C04", "C20"] if is_agg else ["C04"]
             good = []
             why = "no send of ActorInputMessage::Ok to `requester` on any path of the handler"
-            for (bb, t, dest_at, agg) in sends_via(r, a, R):
+            for (bb, t, dest_at, msg) in sends_via(r, a, R):
                 if not msg_field_atoms("Requested", "requester")(dest_at):
                     continue
-                if not agg or agg[1]["rv"]["variant"] != "Ok":
+                if not msg or msg.variant != "Ok":
                     continue
-                kk = kind_of_operand(a, agg_field_op(agg[1], "kind"))
+                kk = msg.kinds
                 if k != "*" and kk != {k}:
                     why = f"the reply carries kind {sorted(kk)} instead of {k}"
                     continue
                 if k == "*" and "msg" not in kk:
                     why = "the reply does not carry the kind of the request"
                     continue
-                idiom, w = classify_ok_site(r, a, agg[0], agg[1])
+                idiom, w = classify_msg_site(r, a, msg)
                 if idiom not in ("I1", "I3"):
                     why = f"the reply is not guarded by `executed` or by an empty pending set ({w})"
                     continue
@@ -77,9 +77,9 @@ def foreign_kind_reply(ctx):
                 ctx.check(bool(regs), f"{lab}/Requested.{other}", [a.loc()], f"requests for {other} are neither answered nor registered")
                 continue
             good = []
-            for (bb, t, dest_at, agg) in sends_via(r, a, R):
-                if msg_field_atoms("Requested", "requester")(dest_at) and agg and agg[1]["rv"]["variant"] == "Ok" \
-                        and kind_of_operand(a, agg_field_op(agg[1], "kind")) == {other} and is_awaited(a, bb) and _must_pass(a, R, bb):
+            for (bb, t, dest_at, msg) in sends_via(r, a, R):
+                if msg_field_atoms("Requested", "requester")(dest_at) and msg and msg.variant == "Ok" \
+                        and msg.kinds == {other} and is_awaited(a, bb) and _must_pass(a, R, bb):
                     good.append(bb)
             ctx.check(bool(good), f"{lab}/Requested.{other}", [site(a, b) for b in good] or [a.loc(min(R))],
                       f"a request for {other} is not answered with Ok{{{other}}} to the requester on every path: the requester would wait forever")
